@@ -371,12 +371,14 @@ def tr_resid(run):
         else:
             sk = "None"
         rows.append("{| lf_name := %s; lf_calls := [%s]; lf_indirect := %s; lf_skel := %s |}" % (q(n), "; ".join(q(c) for c in cs), "true" if ind else "false", sk))
-    out.append("Record libfn := { lf_name : string; lf_calls : list string; lf_indirect : bool; lf_skel : option fn_skel }.")
+    out.append("From Snoopy Require Import Residue.Model.")
     out.append("Definition lib_fns : list libfn :=\n  [%s].\n" % ";\n   ".join(rows))
     out.append("Definition address_taken : list string :=\n  [%s].\n" % "; ".join(q(n) for n in sorted(taken) if n in fns))
     out.append("Definition call_cycles : list string :=\n  [%s].\n" % "; ".join(q(n) for n in sorted(set(cyc))))
+    ext = sorted(set(c for n in fns for c in fns[n][1] if c not in fns))
+    out.append("Definition ast_externals : list string :=\n  [%s].\n" % "; ".join(q(n) for n in ext))
     run.write_gen("Gen_Resid.v", "\n".join(out))
-    info = {"functions": len(fns), "touching": sorted(touch), "skeletons": nsk, "address_taken": sorted(n for n in taken if n in fns), "cycles": sorted(set(cyc)),
+    info = {"functions": len(fns), "externals": ext, "touching": sorted(touch), "skeletons": nsk, "address_taken": sorted(n for n in taken if n in fns), "cycles": sorted(set(cyc)),
             "statics": {n: v[4] for n, v in fns.items() if v[4]}, "files": {n: v[0] for n, v in fns.items()}}
     run.consts["resid"] = info
     return info
